@@ -71,6 +71,16 @@ def notResolved : Res → Bool
 def setT (g : Ghost) (tid : String) (t : Option GT) : Ghost :=
   { g with tunnels := fun k => if k = tid then t else g.tunnels k }
 
+/-- A live registration of `tid` in the specification state. -/
+def liveReg (cfg : Cfg) (g : Ghost) (tid : String) : Option GT :=
+  match g.tunnels tid with
+  | some t => if liveT cfg.backend g t then some t else none
+  | none => none
+
+def isFoundAs (t : GT) : Res → Bool
+  | .found r' => sameData t.data r' t.ttl
+  | _ => false
+
 /-- One event against the specification state. -/
 def check (cfg : Cfg) (g : Ghost) : Ev → Res → Bool
   | .reg _ r, res => if r.tunnelID == "" then res == .errParam else res == .ok
@@ -96,10 +106,13 @@ def check (cfg : Cfg) (g : Ghost) : Ev → Res → Bool
       if liveA cfg.backend g a then (if a.addr != "" then res == .addr a.addr else res == .errData)
       else res == .notFound
     | none => res == .notFound
-  | .fwd _ tid, res =>
+  | .fwd n tid, res =>
     match g.tunnels tid with
     | some t =>
       if liveT cfg.backend g t then
+        if t.data.sourceNodeID == nodeName n then
+          (if g.bridges n tid then res == .localAttached else res == .localWait)
+        else
         (match g.addrs t.data.sourceNodeID with
          | some a =>
            if liveA cfg.backend g a && a.addr != "" then res == .forwarded t.data.sourceNodeID a.addr
@@ -107,6 +120,17 @@ def check (cfg : Cfg) (g : Ghost) : Ev → Res → Bool
          | none => res == .errNoAddr)
       else notResolved res
     | none => notResolved res
+  | .pollStart _ tid k, res =>
+    if k == 0 then res == .pending
+    else
+      match liveReg cfg g tid with
+      | some t => isFoundAs t res
+      | none => if tid == "" then res == .errStorage else res == .pending
+  | .pollEnd _ tid, res =>
+    match liveReg cfg g tid with
+    | some t => isFoundAs t res
+    | none => if tid == "" then res == .errStorage else res == .timeout
+  | .restart _, res => res == .skip
 
 def gstep (cfg : Cfg) (g : Ghost) : Ev → Ghost
   | .reg n r => if r.tunnelID == "" then g else setT g r.tunnelID (some ⟨r, tableTTL cfg n, g.wall, g.rclk⟩)
@@ -129,6 +153,9 @@ def gstep (cfg : Cfg) (g : Ghost) : Ev → Ghost
   | .regAddr _ nid a => { g with addrs := fun k => if k = nid then some ⟨a, g.wall, g.rclk⟩ else g.addrs k }
   | .getAddr _ _ => g
   | .fwd _ _ => g
+  | .pollStart _ _ _ => g
+  | .pollEnd _ _ => g
+  | .restart n => { g with bridges := fun m t => if m = n then false else g.bridges m t }
 
 def holdsFrom (cfg : Cfg) (g : Ghost) : List Ev → List Res → Bool
   | [], [] => true
@@ -162,6 +189,9 @@ def wfEv (b : Backend) : Ev → Bool
   | .regAddr n _ _ => wfNode b n
   | .getAddr n _ => wfNode b n
   | .fwd n _ => wfNode b n
+  | .pollStart n _ _ => wfNode b n
+  | .pollEnd n _ => wfNode b n
+  | .restart _ => b != .hybridLocal   -- without a shared cache a restart loses the records themselves
   | _ => true
 
 def wf (cfg : Cfg) (evs : List Ev) : Bool := evs.all (wfEv cfg.backend)
